@@ -165,6 +165,6 @@ ORACLES = [
 ]
 TRUSTED_BASE = ['pyvc symbolic executor', 'z3 5.1.0 / cvc5 1.0.3', 'str.replace uninterpreted',
                 'regular-expression semantics of suggest_pattern and the Python string-literal tokenizer are NOT modelled: the matching direction is bounded-only']
-ASSUMPTIONS = ['A6']
+ASSUMPTIONS = ['A6', 'str.isprintable and the unicode_escape codec are uninterpreted (that the escape is printable ASCII and is read back by the expression parser: bounded stand-in)']
 EXPLANATION = ('Only the structure of the emitted rule text and the escaping of one word are discharged deductively (symbolic execution, z3). The sentence "the suggested rule matches the '
                'description" needs regular-expression and tokenizer semantics that no contract within reach expresses: it is decided by the labelled bounded stand-in only, so the level is "other".')
